@@ -276,6 +276,7 @@ static int cmd_run(int argc, char **argv) {
     else if (a == "--tag") g_tag = val(); else if (a == "--rlimit") g_worker_rlimit = atol(val().c_str()); else if (a == "--hashes") out_prefix = val();
     else if (a == "--replay-dir") g_replay_dir = val();
     else if (a == "--tier") g_thorough = (val() == "thorough");
+    else if (a == "--light") g_light = true;
     else if (a == "--known") { string k = val(); size_t e = k.find('='); g_known.push_back({k.substr(0, e), e == string::npos ? "" : k.substr(e + 1)}); } else if (a == "--max-candidates") max_cand = atoi(val().c_str()); else if (a == "--shrink-budget") shrink_budget = atoi(val().c_str());
     else { fprintf(stderr, "unknown option %s\n", a.c_str()); return 2; }
   }
